@@ -96,36 +96,41 @@ func (n *NameTrie[V]) HasChildren() bool {
 	return len(n.chd) > 0
 }
 
-// Delete deletes the node itself. Altomatically removes the parent node if it is empty.
+// Delete deletes the node itself: its value is cleared and, unless it still has children, it is unlinked.
+// Automatically removes the parent node if it is empty (has no other children).
+// A node that has children is kept, so entries stored below it are never lost; the root node cannot be deleted.
 func (n *NameTrie[V]) Delete() {
-	if n.par != nil {
-		n.chd = nil
-		delete(n.par.chd, n.key)
-		if len(n.par.chd) == 0 {
-			n.par.Delete()
-		}
-	} else {
-		// Root node cannot be deleted.
-		n.chd = map[string]*NameTrie[V]{}
+	var zero V
+	n.val = zero
+	n.unlinkIfChildless()
+}
+
+// unlinkIfChildless unlinks the node, and then its ancestors, as long as they have no children.
+func (n *NameTrie[V]) unlinkIfChildless() {
+	if len(n.chd) > 0 || n.par == nil {
+		return
 	}
+	// n may be a stale reference to a node that was unlinked earlier (and re-created since)
+	if n.par.chd[n.key] == n {
+		delete(n.par.chd, n.key)
+	}
+	n.chd = nil
+	n.par.unlinkIfChildless()
 }
 
 // DeleteIf deletes the node and its ancestors if they are empty.
 // Whether empty or not is defined by a given function.
+// A node that still has children is kept, and the root node cannot be deleted.
 func (n *NameTrie[V]) DeleteIf(pred func(V) bool) {
-	if !pred(n.val) {
+	if !pred(n.val) || len(n.chd) > 0 || n.par == nil {
 		return
 	}
-	if n.par != nil {
-		n.chd = nil
+	// n may be a stale reference to a node that was unlinked earlier (and re-created since)
+	if n.par.chd[n.key] == n {
 		delete(n.par.chd, n.key)
-		if len(n.par.chd) == 0 {
-			n.par.DeleteIf(pred)
-		}
-	} else {
-		// Root node cannot be deleted.
-		n.chd = map[string]*NameTrie[V]{}
 	}
+	n.chd = nil
+	n.par.DeleteIf(pred)
 }
 
 // Depth returns the depth of a node in the tree.
